@@ -48,7 +48,46 @@ func (e *Engine) verifyClosure(parent *Contract, cc *Contract) (res *UnitResult)
 		return
 	}
 	var lit *ast.FuncLit
+	var forSig *types.Signature
 	switch cc.ClosureKey {
+	case "for":
+		// the n-th bare `for { ... }` loop of the function (wherever it is nested): an event
+		// loop verified on its own, started from arbitrary values of the variables it uses
+		type bareFor struct {
+			st   *ast.ForStmt
+			encl ast.Node
+		}
+		var fors []bareFor
+		var stack []ast.Node
+		ast.Inspect(fd, func(n ast.Node) bool {
+			if n == nil {
+				stack = stack[:len(stack)-1]
+				return true
+			}
+			stack = append(stack, n)
+			if f, ok := n.(*ast.ForStmt); ok && f.Cond == nil && f.Init == nil && f.Post == nil {
+				var encl ast.Node = fd
+				for i := len(stack) - 1; i >= 0; i-- {
+					if fl, ok := stack[i].(*ast.FuncLit); ok {
+						encl = fl
+						break
+					}
+				}
+				fors = append(fors, bareFor{f, encl})
+			}
+			return true
+		})
+		if cc.ClosureOrd < 1 || cc.ClosureOrd > len(fors) {
+			res.Err = fmt.Sprintf("contract-stale: %s has %d bare for-loops, contract names #%d", parent.Key(), len(fors), cc.ClosureOrd)
+			return
+		}
+		bf := fors[cc.ClosureOrd-1]
+		if fl, ok := bf.encl.(*ast.FuncLit); ok {
+			forSig, _ = pkg.TypesInfo.Types[fl].Type.(*types.Signature)
+		} else {
+			forSig, _ = fn.Type().(*types.Signature)
+		}
+		lit = &ast.FuncLit{Type: &ast.FuncType{Func: bf.st.Pos(), Params: &ast.FieldList{}}, Body: &ast.BlockStmt{Lbrace: bf.st.Pos(), List: []ast.Stmt{bf.st}, Rbrace: bf.st.End() - 1}}
 	case "go":
 		lits := findGoLits(fd.Body)
 		if cc.ClosureOrd < 1 || cc.ClosureOrd > len(lits) {
@@ -61,6 +100,9 @@ func (e *Engine) verifyClosure(parent *Contract, cc *Contract) (res *UnitResult)
 		return
 	}
 	sig, _ := pkg.TypesInfo.Types[lit].Type.(*types.Signature)
+	if forSig != nil {
+		sig = forSig
+	}
 	if sig == nil {
 		res.Err = "contract-stale: closure has no signature"
 		return
@@ -94,6 +136,20 @@ func (e *Engine) verifyClosure(parent *Contract, cc *Contract) (res *UnitResult)
 		u.inputs = append(u.inputs, ModelVar{Name: v.Name(), Term: hv.T, Sort: hv.S, Ty: v.Type()})
 		return true
 	})
+	// parameters of the enclosing function are in scope for the closure's clauses even when the
+	// literal itself does not mention them
+	if psig, ok := fn.Type().(*types.Signature); ok {
+		for i := 0; i < psig.Params().Len(); i++ {
+			v := psig.Params().At(i)
+			if seen[v] || v.Name() == "" || v.Name() == "_" {
+				continue
+			}
+			seen[v] = true
+			hv := x.havocVal("cap_"+v.Name(), v.Type())
+			x.emitTypeFact(st, hv)
+			x.declVar(st, v, hv)
+		}
+	}
 	mods := map[string]string{"*": "all"}
 	fr.modsInfo = mods
 	x.entry = st.clone()
